@@ -245,6 +245,10 @@ func RunCheck(id, tier string) int {
 			tot.Counters[k] += v
 		}
 		for _, h := range r.Hashes {
+			if len(hashes) >= 4000000 {
+				tot.HashCapped = true // distinct count is then a lower bound
+				break
+			}
 			hashes[h] = struct{}{}
 		}
 		if len(tot.Samples) < 12 {
